@@ -361,6 +361,10 @@ def gen_c04(tier, enum):
 C05_CORE = {"Ethernet": 18, "Dot1Q": 8, "IPv4": 28, "IPv6": 48, "TCP": 28, "UDP": 12, "ICMPv4": 12, "ICMPv6": 12, "GRE": 16, "ARP": 28}
 
 
+# fixed header length of the types for which the focused stale-state unit is generated
+C05_MINHDR = {"Ethernet": 14, "Dot1Q": 4, "IPv4": 20, "IPv6": 40, "TCP": 20, "UDP": 8, "ICMPv4": 8, "ICMPv6": 4, "GRE": 4, "ARP": 8}
+
+
 def gen_c05(tier, enum):
     e = [x for x in enum(MOD + "/layers")["types"] if x["Decode"] and "DecodeFeedback" in x["DecodeSig"]]
     n0 = 20 if tier == "quick" else 28
@@ -377,6 +381,30 @@ def gen_c05(tier, enum):
 	nb := verifInt("nb", 0, {n})
 	var l, f {T}
 	_ = l.DecodeFromBytes(a[:na], gopacket.NilDecodeFeedback)
+	d1, d2 := &c05DF{{}}, &c05DF{{}}
+	e1 := l.DecodeFromBytes(b[:nb], d1)
+	e2 := f.DecodeFromBytes(b[:nb], d2)
+	verifAssert((e1 == nil) == (e2 == nil), "same outcome as decoding into a fresh object")
+	if e1 == nil && e2 == nil {{
+		verifAssert(d1.t == d2.t, "same truncation flag as a fresh object")
+		verifAssert(verifDeepEqual(&l, &f), "same field values as decoding into a fresh object")
+	}}
+	verifReached("stale")
+}}
+""")
+        if T in C05_MINHDR:
+            m = C05_MINHDR[T]
+            # focused variant: a rich first packet (longer than the fixed header, so
+            # options/extensions are present) followed by a minimal second packet
+            out.append(f"""func verif_C05_stale2_{T}() {{
+	a := verifBytes("a", {n})
+	na := verifInt("na", {m + 1}, {n})
+	b := verifBytes("b", {m + 1})
+	nb := verifInt("nb", {m}, {m + 1})
+	var l, f {T}
+	if l.DecodeFromBytes(a[:na], gopacket.NilDecodeFeedback) != nil {{
+		verifReached("first-rejected")
+	}}
 	d1, d2 := &c05DF{{}}, &c05DF{{}}
 	e1 := l.DecodeFromBytes(b[:nb], d1)
 	e2 := f.DecodeFromBytes(b[:nb], d2)
@@ -437,9 +465,9 @@ PROPS = {
         "pkgs": [MOD + "/layers"],
         "static": [("layers", "c05.go")],
         "generate": gen_c05,
-        "bounds": "parser vs NewPacket: Ethernet/Dot1Q/IPv4/IPv6/TCP/UDP/Payload layers in a map, sparse or array container, first layer IPv4 or IPv6 (Ethernet in thorough), input of every length up to 32 (quick, step 4) symbolic bytes; stale state: each DecodingLayer type (10 core types quick, all thorough) decodes symbolic packet a (0..20/28 bytes) then symbolic packet b into the same object, compared with decoding b into a fresh object",
+        "bounds": "parser vs NewPacket: Ethernet/Dot1Q/IPv4/IPv6/TCP/UDP/Payload layers in a map, sparse or array container, first layer IPv4 or IPv6 (Ethernet in thorough), input of every length up to 32 (quick, step 4) symbolic bytes; stale state: each DecodingLayer type (10 core types quick, all thorough) decodes symbolic packet a (up to header+8 bytes for the core types, 0..20/28 otherwise) then symbolic packet b into the same object, compared with decoding b into a fresh object; focused variant for the 10 core types: a longer than the fixed header (options/extension present), b of exactly the fixed header length or one byte more",
         "outside": "custom containers, longer inputs, sequences of more than two packets",
-        "quick": {"timeout": 1200, "maxpaths": 500, "partial_ok_all": True, "unsupported_ok": True, "params": "verif_C05_parser_ip4:n=20..28/4;verif_C05_parser_ip6:n=40..44/4;verif_C05_parser_eth:n=14..14", "units": "verif_C05_(stale_.*|parser_ip4|parser_ip6)"},
+        "quick": {"timeout": 1200, "maxpaths": 500, "partial_ok_all": True, "unsupported_ok": True, "params": "verif_C05_parser_ip4:n=20..28/4;verif_C05_parser_ip6:n=40..44/4;verif_C05_parser_eth:n=14..14", "units": "verif_C05_(stale_.*|stale2_.*|parser_ip4|parser_ip6)"},
         "thorough": {"timeout": 3000, "maxpaths": 30000, "partial_ok_all": True, "unsupported_ok": True, "params": "verif_C05_parser_ip4:n=20..40/2;verif_C05_parser_ip6:n=40..56/2;verif_C05_parser_eth:n=34..46/4"},
     },
     "C06": {
